@@ -9,6 +9,7 @@ package main
 
 import (
 	"os"
+	"strings"
 	"time"
 )
 
@@ -28,8 +29,29 @@ func main() {
 		time.Sleep(time.Millisecond)
 	}
 	/* a hook that fails, with output, when asked to */
-	if len(os.Args) > 2 && os.Args[len(os.Args)-1] == "fail" {
-		os.Stderr.WriteString("viewer crashed\nsecond line\n")
-		os.Exit(1)
+	if len(os.Args) > 2 {
+		switch os.Args[len(os.Args)-1] {
+		case "fail":
+			os.Stderr.WriteString("viewer crashed\nsecond line\n")
+			os.Exit(1)
+		case "failquiet":
+			os.Exit(3)
+		case "failbig":
+			/* much output on both streams, lines longer than any terminal, many lines */
+			for i := 0; i < 400; i++ {
+				os.Stdout.WriteString(strings.Repeat("out ", 60) + "\n")
+				os.Stderr.WriteString(strings.Repeat("e", 300) + "\r\n")
+			}
+			os.Exit(1)
+		case "failbin":
+			/* control bytes, escape sequences, a line feed first, bytes that are not UTF-8 */
+			os.Stdout.Write([]byte("\n\x1b[2J\x1b]0;title\x07\x00\xff\xfe\x80 caf\xc3\xa9\t\x9b31m \xe2\x80\xa8\r\n\n"))
+			os.Stderr.Write([]byte{0x1b, '[', '3', '1', 'm', 0xc3, 0x28, 0x7f, 0x85, '\n'})
+			os.Exit(2)
+		case "okbig":
+			for i := 0; i < 400; i++ {
+				os.Stdout.WriteString(strings.Repeat("fine ", 40) + "\n")
+			}
+		}
 	}
 }
